@@ -5,7 +5,7 @@ Require Export MV.Lib.Base MV.C13.Defs MV.C13.Geom MV.C13.Gen MV.C13.Model MV.C1
 Require Export MV.C13.Proofs_Base MV.C13.Proofs_Counts MV.C13.Proofs_Topo MV.C13.Proofs_Geom MV.C13.Proofs_GeomQ MV.C13.Proofs_GeomF MV.C13.Proofs_GeomV
                MV.C13.Proofs_Accept MV.C13.Proofs_Accept2 MV.C13.Proofs_Vol MV.C13.Proofs_Arg MV.C13.Proofs_Manifold MV.C13.Proofs_Manifold2 MV.C13.Proofs_Euler
                MV.C13.Proofs_Border MV.C13.Proofs_Comp MV.C13.Proofs_SD MV.C13.Proofs_Tri MV.C13.Proofs_VolTopo
-               MV.C13.Proofs_Pos MV.C13.Proofs_GeomM MV.C13.Proofs_GeomMV MV.C13.Proofs_VolConf.
+               MV.C13.Proofs_Pos MV.C13.Proofs_GeomM MV.C13.Proofs_GeomMV MV.C13.Proofs_VolConf MV.C13.Proofs_VolConf2.
 Import ListNotations.
 Open Scope Z_scope.
 
@@ -82,6 +82,40 @@ Proof.
   apply prepared_volume_WFv. unfold ex_vol_C. repeat (apply Forall_cons || apply Forall_nil); (split; [reflexivity|]);
     repeat (apply Forall_cons || apply Forall_nil); unfold vert_ok; vm_compute; split; congruence.
 Qed.
+(* hypotheses of C13_topology_face_centre_conforming / C13_topology_volume_history_conforming: the two-cell mesh satisfies
+   the invariant; its interior face 3 = [0;1;2] has two adjacent cells *)
+Example ex_vol_inv : vol_inv (input_volume ex_vol_V ex_vol_C).
+Proof.
+  unfold input_volume. apply prepared_volume_inv.
+  - unfold ex_vol_C. repeat (apply Forall_cons || apply Forall_nil); (split; [reflexivity|]);
+      repeat (apply Forall_cons || apply Forall_nil); unfold vert_ok; vm_compute; split; congruence.
+  - split; [unfold ex_vol_C; repeat constructor; cbn; intuition congruence|].
+    intros t. apply cnt_le1. unfold ex_vol_C. repeat (apply FOP_cons || apply FOP_nil); repeat (apply Forall_cons || apply Forall_nil); vm_compute; reflexivity.
+  - intros t. unfold uocc, sides_of, ex_vol_C. cbn [flat_map]. rewrite app_nil_r, filter_app, app_length.
+    assert (D : forall c, In c [[0; 1; 2; 3]; [0; 2; 1; 4]] -> ForallOrdPairs (fun a b => seteqz a b = false) (tet_faces c)).
+    { intros c [<-|[<-|[]]]; repeat (apply FOP_cons || apply FOP_nil); repeat (apply Forall_cons || apply Forall_nil); vm_compute; reflexivity. }
+    pose proof (filter_le1 t _ (D [0; 1; 2; 3] ltac:(cbn; auto))). pose proof (filter_le1 t _ (D [0; 2; 1; 4] ltac:(cbn; auto))). lia.
+Qed.
+Example ex_face_centre_conforming :
+  let r := input_volume ex_vol_V ex_vol_C in
+  exists r', getz (rf r) 3 = Ok [0; 1; 2] /\ split_tet_from_face_center QcO r 3 = Ok r' /\ NoDup [0; 1; 2] /\ nC r' = 6.
+Proof.
+  cbv zeta. eexists. split; [vm_compute; reflexivity|]. split; [vm_compute; reflexivity|].
+  split; [repeat constructor; cbn; intuition congruence|vm_compute; reflexivity].
+Qed.
+Example ex_volume_history_conforming :
+  exists r', foldM (vstep QcO) [CellFan 0; FaceCentre 3; FaceCentre 8] (input_volume ex_vol_V ex_vol_C) = Ok r' /\ nC r' = 13.
+Proof. eexists. split; vm_compute; reflexivity. Qed.
+Example ex_cell_fan_untouched :
+  let r := input_volume ex_vol_V ex_vol_C in
+  exists r', getz (rc r) 0 = Ok [0; 1; 2; 3] /\ split_cell_as_fan QcO r 0 = Ok r' /\ getz (rc r') 1 = Ok [0; 2; 1; 4].
+Proof. cbv zeta. eexists. split; [vm_compute; reflexivity|]. split; vm_compute; reflexivity. Qed.
+(* face 0 = [1;3;2] lies in the first cell only: the second cell is left alone *)
+Example ex_face_centre_untouched :
+  let r := input_volume ex_vol_V ex_vol_C in
+  exists r', getz (rf r) 0 = Ok [1; 3; 2] /\ split_tet_from_face_center QcO r 0 = Ok r' /\
+             fc_adjacent [1; 3; 2] [0; 2; 1; 4] = false /\ getz (rc r') 1 = Ok [0; 2; 1; 4].
+Proof. cbv zeta. eexists. split; [vm_compute; reflexivity|]. split; [vm_compute; reflexivity|]. split; vm_compute; reflexivity. Qed.
 (* the field hypotheses of the geometry theorems hold for Qc *)
 Example ex_field_Qc : two Qc (Q2Qc 1) Qcplus <> Q2Qc 0 /\ three Qc (Q2Qc 1) Qcplus <> Q2Qc 0.
 Proof. split; intro H; vm_compute in H; discriminate. Qed.
